@@ -245,7 +245,8 @@ contract(M + ':API._ReservationAPI.update',
          raises={'InvalidInputError': [], 'ValueError': []},
          modifies=['alloc', ('RsrcRec.cpu', 'lambda r: True'), ('RsrcRec.disk', 'lambda r: True'),
                    ('RsrcRec.memory', 'lambda r: True'), ('RsrcRec.partition', 'lambda r: True'),
-                   ('RsrcRec.traits', 'lambda r: True'), ('RsrcRec.has_traits', 'lambda r: True')],
+                   ('RsrcRec.traits', 'lambda r: True'), ('RsrcRec.has_traits', 'lambda r: True'),
+                   ('RsrcRec.rank', 'lambda r: True'), ('RsrcRec.has_rank', 'lambda r: True')],
          props=['C19'])
 site(M + ':API._ReservationAPI.update', 'AdminCellAlloc.update', ordinal=1, asserts=[
     # the directory write is reached only for a reservation that passed the acceptance check
